@@ -9,7 +9,10 @@ def sweep_generated(comp, zic_tables, pid, tier, seed, step=None, win=0, timeout
     ext = comp.scope == 'extended'
     d = tempfile.mkdtemp(prefix='verif-gen-')
     try:
-        pipeline.generate(comp, 'arduino', d, db_namespace='vdb')
+        try:
+            pipeline.generate(comp, 'arduino', d, db_namespace='vdb')
+        except Exception as e:
+            return None, 'GENERATOR-RAISED %s: %s' % (type(e).__name__, str(e)[:200])
         names = sorted(comp.tzdb['zones_map'])
         h = hashlib.sha256(repr([(n, zic_tables[n]) for n in names]).encode()).hexdigest()[:12]
         opath = os.path.join(runner.BUILD, 'oracle-gen-%s.txt' % h)
